@@ -33,7 +33,7 @@ ASSUMPTIONS = []
 
 def registry():
     from contracts import misc
-    return {c.short: c for c in misc.ALL}
+    return {**{c.short: c for c in misc.ALL}, **{c.name: c for c in misc.ALL}}
 
 
 def _vuo_gen(rng, tier):
